@@ -18,7 +18,7 @@ var specs = []Spec{
 	}},
 	{ID: "C04", Level: "exploration", MinDistinct: 50, Engines: []Engine{
 		{Name: "seq", Pkg: "./mon/c04", Procs: 1},
-		{Name: "coop", Pkg: "./mon/chainco", Env: []string{"VERIF_PROP=C04"}},
+		{Name: "coop", Pkg: "./mon/chainco", Env: []string{"VERIF_PROP=C04"}, Instr: []string{"core/stat/base_node.go"}},
 		{Name: "par", Pkg: "./mon/parcap", Race: true, Env: []string{"VERIF_PROP=C04"}, DeathSig: "C04/par:process-died"},
 	}},
 	{ID: "C05", Level: "exploration", MinDistinct: 50, Engines: []Engine{
@@ -27,7 +27,7 @@ var specs = []Spec{
 	{ID: "C06", Level: "exploration", MinDistinct: 50, Engines: []Engine{
 		{Name: "seq", Pkg: "./mon/c06", Procs: 1},
 		{Name: "par", Pkg: "./mon/c06", Race: true, Env: []string{"VERIF_MODE=par"}, DeathSig: "C06/par:process-died"},
-		{Name: "coop", Pkg: "./mon/chainco", Env: []string{"VERIF_PROP=C06"}},
+		{Name: "coop", Pkg: "./mon/chainco", Env: []string{"VERIF_PROP=C06"}, Instr: []string{"core/hotspot/concurrency_stat_slot.go", "core/hotspot/traffic_shaping.go"}},
 	}},
 	{ID: "C07", Level: "exploration", MinDistinct: 50, Engines: []Engine{
 		{Name: "seq", Pkg: "./mon/c07", Procs: 1},
